@@ -256,8 +256,8 @@ func ruleC17R2(c *Ctx) {
 	shut := c.sitesWhereR(fn, func(s ssa.CallInstruction) bool { return invokeOf(s, "base.Orchestrator", "Shutdown") })
 	var renew []ssa.CallInstruction
 	complete := resultOf(init[0].Value(), 0)
-	for _, s := range callsIn(fn) { // the completion function is a local value of reload itself
-		if !s.Common().IsInvoke() && strip(s.Common().Value) == complete {
+	for _, s := range c.callsInR(fn) { // the completion function is a local value of reload, possibly handed to a helper
+		if !s.Common().IsInvoke() && s.Common().StaticCallee() == nil && strip(c.resolveR(fn, s.Common().Value)) == strip(complete) {
 			renew = append(renew, s)
 		}
 	}
@@ -329,7 +329,7 @@ func ruleC17R3(c *Ctx) {
 	for _, f := range c.P.universe {
 		for _, st := range storesToField(f, fLoader) {
 			n++
-			ok := anchorName(f) == aNewReloader || (f.Parent() != nil && anchorName(f.Parent()) == aInitReload)
+			ok := anchorName(f) == aNewReloader || (f.Parent() != nil && anchorName(f.Parent()) == aInitReload) || (f.Parent() == nil && ownedBy(f, aInitReload))
 			c.check(ok, "C17.R3", f, "store to Reloader.Loader", st.Pos(), "the loader is swapped only by the completion closure (and set by the constructor)", "the active loader is replaced outside the reload completion closure")
 		}
 	}
